@@ -1,6 +1,6 @@
-import EupsModel.Drv.Util
+import EupsModel.Drv.C06
 namespace EupsModel.Drv.C15
 open Lean EupsModel EupsModel.Drv
-/-- placeholder until the C15 model exists -/
-def handle : Handler := fun _ => throw "model C15 not built"
+/-- C15 runs the same world model as C06 (`Drv/C06.lean`) with `noaction` set on the commands. -/
+def handle : Handler := C06.handle
 end EupsModel.Drv.C15
